@@ -810,6 +810,7 @@ func (in *Interp) RunPath(harness *ssa.Function, args []Value, forced []int) (re
 	in.path = &PathState{Facts: map[uint32]bool{}, Bounds: map[uint32][2]uint64{}, Forced: forced}
 	in.siblings = nil
 	in.depth = 0
+	in.reSteps = 0
 	in.frozen, in.frozenMaps, in.frozenHits = nil, nil, nil
 	res.State = in.path
 	defer func() {
